@@ -718,7 +718,67 @@ impl<'a> Gen<'a> {
         self.push(Op::ConcatList(out), Kind::Pattern)
     }
 
+    /// one word as a literal and as a concatenation of runs (c^k pieces), then combined by a boolean operator
+    fn gen_constant_two_ways(&mut self) {
+        let l1 = self.point();
+        let l2 = self.point();
+        let len = 2 + self.rng.usize(4);
+        let mut w: Vec<u32> = Vec::new();
+        while w.len() < len {
+            let c = if self.rng.chance(1, 2) { l1 } else { l2 };
+            let run = 1 + self.rng.usize(3);
+            for _ in 0..run {
+                if w.len() < len {
+                    w.push(c);
+                }
+            }
+        }
+        let lit = self.push(Op::Str(w.clone()), Kind::Str);
+        // chunks: maximal runs as powers, or the word cut in two literals, or a repeated half
+        let mut pieces: Vec<usize> = Vec::new();
+        let mut i = 0;
+        while i < w.len() {
+            let mut j = i;
+            while j < w.len() && w[j] == w[i] {
+                j += 1;
+            }
+            let c = self.push(Op::Char(w[i]), Kind::Atom);
+            if j - i > 1 {
+                let p = self.push(Op::Exp(c, (j - i) as u32), Kind::LoopAtom);
+                pieces.push(p);
+            } else {
+                pieces.push(c);
+            }
+            i = j;
+        }
+        let chunked = if pieces.len() == 1 { pieces[0] } else { self.push(Op::ConcatList(pieces), Kind::Pattern) };
+        let op = match self.rng.below(4) {
+            0 => Op::Inter(lit, chunked),
+            1 => Op::Union(chunked, lit),
+            2 => Op::Diff(lit, chunked),
+            _ => Op::Inter(chunked, lit),
+        };
+        self.push(op, Kind::Other);
+        // and a word repeated as a unit
+        if self.rng.chance(1, 2) && w.len() >= 2 {
+            let half = self.push(Op::Str(w[..2].to_vec()), Kind::Str);
+            let k = 2 + self.rng.below(2) as u32;
+            let rep_unit = self.push(Op::Exp(half, k), Kind::Other);
+            let mut full: Vec<u32> = Vec::new();
+            for _ in 0..k {
+                full.extend_from_slice(&w[..2]);
+            }
+            let lit2 = self.push(Op::Str(full), Kind::Str);
+            let op2 = if self.rng.chance(1, 2) { Op::Inter(rep_unit, lit2) } else { Op::Diff(lit2, rep_unit) };
+            self.push(op2, Kind::Other);
+        }
+    }
+
     fn step(&mut self) {
+        if self.n() >= 3 && self.prof != Profile::Small && self.rng.chance(1, 40) {
+            self.gen_constant_two_ways();
+            return;
+        }
         if self.n() < 3 {
             self.gen_atom();
             return;
